@@ -92,8 +92,12 @@ module to(input clk, input a, output reg q);
   // synthesis translate_on
 endmodule`
 	_, strict := ParseDesign(map[string]string{"t.v": src})
-	if !hasDiag(strict, ClassSyntax, "") {
-		t.Fatalf("SystemVerilog assertions must not parse in strict mode: %v", strict)
+	// SystemVerilog inside a Verilog module: outside the subset, reported as unsupported (not as a defect)
+	if !hasDiag(strict, ClassUnsupported, "") || hasDiag(strict, ClassSyntax, "") {
+		t.Fatalf("SystemVerilog assertions must be reported as unsupported in strict mode: %v", strict)
+	}
+	if ds, _ := ParseDesign(map[string]string{"t.v": src}); ds.Module("to") != nil {
+		t.Fatal("module with SystemVerilog assertions must not be available in strict mode")
 	}
 	d, lenient := ParseDesignOpts(map[string]string{"t.v": src}, ParseOpts{HonorTranslateOff: true})
 	for _, dg := range lenient {
